@@ -238,7 +238,7 @@ Definition gen_qr (tbs : list (option val)) (it : val) : option val :=
   g28 <~ gen_qlist tbs (qe 0%nat) ;; g29 <~ gen_rrlist tbs (qe 1%nat) ;; g30 <~ gen_rrlist tbs (qe 2%nat) ;; g31 <~ gen_rrlist tbs (qe 3%nat) ;;
   let re := nth_o (fields_of (s 12%nat)) in
   g32 <~ gen_qlist tbs (re 0%nat) ;; g33 <~ gen_rrlist tbs (re 1%nat) ;; g34 <~ gen_rrlist tbs (re 2%nat) ;; g35 <~ gen_rrlist tbs (re 3%nat) ;;
-  Some (VR [s 0%nat; g1; s 2%nat; s 3%nat; g4; q 1%nat; q 2%nat; q 3%nat; q 4%nat; q 5%nat; q 6%nat; q 7%nat; g12; q 9%nat; q 10%nat;
+  Some (VR [s 0%nat; g1; s 2%nat; s 3%nat; g4; q 1%nat; q 2%nat; q 3%nat; q 4%nat; q 5%nat; q 6%nat; q 7%nat; g12; q 9%nat; narrow16 (q 10%nat);
             q 11%nat; q 12%nat; q 13%nat; q 14%nat; g19; q 16%nat; s 5%nat; s 6%nat; g23; s 8%nat; s 9%nat; g26; rp 1%nat;
             g28; g29; g30; g31; g32; g33; g34; g35; s 13%nat; s 14%nat; s 15%nat]).
 
